@@ -88,8 +88,12 @@ prop('C05', title='Nothing that requires validation reaches the application unva
 prop('C06', title='Receive path: exact stream framing, and no failure on any delivered bytes', level='proof',
      bounded=[('bounded.c06', 'run', SH)],
      level_text='Unbounded proof that _receive of both front-ends returns normally for every (typ, bytes): every decoder below it has a '
-                'verified raise-set and every raised class is caught, incl. envelopes without fragment. Stream framing over all cut '
-                'positions and "unrelated Interests/handlers unaffected" are a bounded stand-in.',
+                'verified raise-set and every raised class is caught, incl. envelopes without fragment. Stream framing: '
+                'read_tl_num_from_stream consumes and copies exactly one variable-size number; StreamFace.run (loop step contract + '
+                'variant, ANY byte stream, reads abstracted by the readexactly contract) hands over exactly one complete packet per '
+                'iteration - its type and a buffer equal to its bytes - continues at the next packet, and on a stream that ends inside '
+                'a packet hands over nothing, shuts the face down and terminates. "Unrelated Interests/handlers unaffected" and real '
+                'cut positions on real StreamReaders are a bounded stand-in.',
      level_note='parse of shipped model classes is summarised (contracts/parse_summary.py) on top of the generic TlvModel.parse proof; '
                 '_on_data/_on_nack/_on_interest are call-site summaries here (their own checks: C03/C04/C05).',
      technique=T_MIXED)
